@@ -361,3 +361,34 @@ def make_center_priors(c):
     c.ensures("z-range", c.and_(c.eq(pz.lower_bound, 0), c.eq(pz.upper_bound, ext * 5)))
     c.ensures("z-range-in-units", c.and_(c.eq(zr.lower_bound, 1.5), c.eq(zr.upper_bound, 7.5)))
     c.canary("origin-ignored", c.eq(py.mu, cy * sy))
+
+
+@contract("C18", "integer_images", [I + "normalize", I + "bg_correct", I + "zero_filter", I + "subimage", I + "detrend"], native_only=True,
+          bounded="native sampling: 4x5 camera-like images with integer dtypes (uint8, uint16, int32, int64) against the same images as floats")
+def integer_images(c):
+    """raw camera images are integer-typed: every tool gives, pixel by pixel, what it gives for the same image stored as floats
+    (no integer division, truncation or unsigned wrap-around)"""
+    dtype = c.choice("dtype", ["uint8", "uint16", "int32", "int64"])
+    hi = {"uint8": 250, "uint16": 60000, "int32": 10 ** 6, "int64": 10 ** 6}[dtype]
+    rng = np.random.RandomState(c.int("seed", 0, 10 ** 6))
+    raw = rng.randint(1, hi, size=(4, 5)).astype(dtype)
+    df = rng.randint(0, max(2, hi // 50), size=(4, 5)).astype(dtype)          # dark counts; a dim raw pixel may lie below them
+    bg = (df.astype('int64') + rng.randint(1, hi - hi // 50, size=(4, 5))).astype(dtype)     # an illuminated background exceeds the dark field
+    mk = (lambda a, t: data_grid(a.astype(t), spacing=0.1, **META_ATTRS))
+    close = (lambda a, b: bool(np.allclose(np.asarray(a.values, dtype=float), np.asarray(b.values, dtype=float), rtol=1e-9, atol=1e-12, equal_nan=True)))
+    c.ensures("normalize", close(ip.normalize(mk(raw, dtype)), ip.normalize(mk(raw, float))))
+    c.ensures("normalize-mean-one", abs(float(ip.normalize(mk(raw, dtype)).mean()) - 1) < 1e-9)
+    c.ensures("bg-correct", close(ip.bg_correct(mk(raw, dtype), mk(bg, dtype)), ip.bg_correct(mk(raw, float), mk(bg, float))))
+    c.ensures("bg-correct-with-dark-field", close(ip.bg_correct(mk(raw, dtype), mk(bg, dtype), mk(df, dtype)),
+                                                  ip.bg_correct(mk(raw, float), mk(bg, float), mk(df, float))))
+    got = ip.bg_correct(mk(raw, dtype), mk(bg, dtype), mk(df, dtype)).values.squeeze()
+    want = (raw.astype(float) - df.astype(float)) / (bg.astype(float) - df.astype(float))
+    worst = np.unravel_index(np.argmax(np.abs(got - want)), got.shape)
+    c.ensures("bg-correct-formula", bool(np.allclose(got, want)),
+              detail="%s image: pixel %s raw=%s background=%s dark=%s -> %r, (raw-dark)/(background-dark) = %r"
+                     % (dtype, tuple(int(i) for i in worst), raw[worst], bg[worst], df[worst], float(got[worst]), float(want[worst])))
+    c.ensures("subimage", close(ip.subimage(mk(raw, dtype), (2, 2), 2), ip.subimage(mk(raw, float), (2, 2), 2)))
+    c.ensures("detrend", close(ip.detrend(mk(raw, dtype)), ip.detrend(mk(raw, float))))
+    dead = bg.copy()
+    dead[1, 2] = 0
+    c.ensures("zero-filter", close(ip.zero_filter(mk(dead, dtype)), ip.zero_filter(mk(dead, float))))
